@@ -488,7 +488,7 @@ def c12(tier):
             {'kind': 'drive', 'profile': 'aggsparse', 'traces': 64 if q else 1000, 'steps': 0, 'shards': 4, 'gomaxprocs': [2, 16], 'extra': ['-bits', '64']},
             {'kind': 'drive', 'cmd': 'bsi', 'profile': 'update', 'traces': 96 if q else 1500, 'steps': 30, 'shards': 6, 'gomaxprocs': [1, 2, 4, 16],
              'trace_module': 'TraceBSI.tla', 'trace_cfg': 'TraceBSI.cfg'},
-            {'kind': 'drive', 'cmd': 'bsi', 'profile': 'query', 'traces': 96 if q else 1500, 'steps': 30, 'shards': 6, 'gomaxprocs': [1, 2, 4, 16],
+            {'kind': 'drive', 'cmd': 'bsi', 'profile': 'query', 'traces': 360 if q else 3000, 'steps': 30, 'shards': 12, 'gomaxprocs': [1, 2, 4, 16],
              'trace_module': 'TraceBSI.tla', 'trace_cfg': 'TraceBSI.cfg'},
             {'kind': 'drive', 'cmd': 'bsi', 'profile': 'bulk', 'traces': 8 if q else 100, 'steps': 20, 'shards': 8, 'gomaxprocs': [2, 4, 16],
              'trace_module': 'TraceBSI.tla', 'trace_cfg': 'TraceBSI.cfg'},
